@@ -25,6 +25,7 @@ import Driver.Misc
 import Driver.Load
 import Driver.ExText
 import Driver.ExK
+import Driver.Keys
 /-!
 Line-protocol driver `jsight-model` (DESIGN.md §12). One request per line on stdin, one reply per
 line on stdout. Core Lean only: nothing imported here may import Mathlib (the executable would
@@ -206,6 +207,10 @@ def handle (line : String) : String :=
      | "E" => DEnum.events bs
      | "L" => DEnum.len bs
      | _ => "bad-op")
+  | "skey" :: r => Drv.Keys.skey r
+  | "ekey" :: r => Drv.Keys.ekey r
+  | "skeys" :: r => Drv.Keys.skeys r
+  | "ekeys" :: r => Drv.Keys.ekeys r
   | "unq" :: r => hexOf (Unquote.unquote (unhex (r.headD "")))
   | ["rend", hx, idx] =>
       (match Render.render (unhex hx).toArray idx.toNat! with
